@@ -465,7 +465,21 @@ def replay(payload):
             bad = bad or order_ok(u[4], u[2])
         st, out = res["compile"]
         print("declaration order:", bad or "valid", "\ngfortran -fimplicit-none -fsyntax-only:", st, out)
-        return 1 if (bad or st != "ok") else 0
+        if not (bad or st != "ok"):
+            return 0
+        # a failure of a listed known-finding class (model reproduces the order, GroupMonotone broken
+        # only through the listed pairs) is not the stored violation
+        known = {e["id"] for e in common.known_findings("C04")}
+        models = model_decls([u[0] for u in res["units"]])
+        agreed, breaks = True, []
+        for (unit, ids, rows, ism, order), m in zip(res["units"], models):
+            inv = {v: k for k, v in ids.items()}
+            agreed &= (None if m[0] == "err" else [inv[i] for i in m[1:]]) == order
+            breaks += monotone_breaks(rows)
+        if agreed and breaks and all(b[2] in known for b in breaks):
+            print("this failure belongs to the known finding(s)", sorted({b[2] for b in breaks}))
+            return 0
+        return 1
     if payload.get("kind") == "merge":
         rout, (outer, tables) = merge_case(random.Random(payload["case_seed"]))
         got, text = real_merge(rout)
